@@ -1,28 +1,39 @@
 #!/usr/bin/env python3
 """System harness for the web-service properties C16 / C17 (Python 3 stdlib only).
 
-  webharness.py run --server-bin PATH --seed N --cases K --mode seq|conc|c16|d9 [--out FILE]
-  webharness.py exec --server-bin PATH [--out FILE]        (request lines of cases on stdin)
+  webharness.py run --server-bin PATH --seed N --cases K --mode seq|conc|c16|d9 [--scale F] [--out FILE]
+  webharness.py exec --server-bin PATH [--out FILE]        (cases with their `http` request lines on stdin)
 
-It starts the MongoDB stub (mongostub.py, in-process) and the REAL `adf-bdd-server` binary
-inside a private network namespace (`unshare -n`, loopback only; the server binds 0.0.0.0:8080
-fixed).  If `unshare` is not available it falls back to an exclusive flock on a lock file.
-It generates request histories from ONE PRNG seed, executes them against the server and prints
-the line protocol of DESIGN.md §3.1:
+It starts the MongoDB stub (mongostub.py, in-process) and the REAL `adf-bdd-server` binary inside a
+private network namespace (`unshare -n`, loopback only; the server binds 0.0.0.0:8080 fixed).  If
+`unshare` is not available it falls back to an exclusive flock on a lock file (--lock).  It generates
+request histories from ONE PRNG seed (case k of a run uses seed*100003+k), executes every history on
+a fresh stub database and prints the line protocol of DESIGN.md section 3.1:
 
-  case web-<k> mode=<m> seed=<s>
-  http <jar> <METHOD> <path> <fields>       fields: `-` or k:hex(v),k:hex(v),…
-  = <status> <cookie-event> <canonical body>
-  taskdone <jar> <n> <task> obs=<class> [hyb=<names>|<table>|<ac>]
-  = <written|nodoc> <stored summary>
-  dbcheck users=<name:class,…> problems=<canonical JSON>          ~ ok
-  isolation <items>                                               ~ ok
-  alone <jar> | alone! <jar>                                      ~ <digests of the jar's responses>
-  result … / graphcheck … (mode c16)                              = … / ~ …
-  # case web-<k> key=val …                                        statistics
+  case web-<k> mode=<seq|conc|c16|d9|d9b|d9c> seed=<s>
+  http <jar> <METHOD> <path> <fields>          fields: `-` (no body), `+` (empty form) or k:hex(v),k:hex(v),...
+                                               (`00` = empty string; `raw:` = body sent verbatim, malformed JSON)
+  = <status> <cookie-event> <canonical body>   cookie-event: - | set | del; JSON bodies with sorted keys, results
+                                               summarised as None | Error:<parse|panic|timeout> | Some[:<ac vectors>];
+                                               generated names as ~t<k> (temporary accounts) / ~p<k> (problem names)
+  taskfin <jar> <n>                            the blocking part of jar's n-th task is over (scheduled histories)
+  taskdone <jar> <n> <task> obs=<class> [adf=<names>|<table>|<ac>]
+  = <written|nodoc> <stored summary>           (did the final write find its (name, username) document?)
+  ~ ok                                         (mode c16, parse tasks: stored ADF denotes the code / error iff unparseable)
+  runcheck <task> <running_tasks>   ~ ok       (mode c16: the ended task is not listed as running)
+  result <key> <hex code> <adf>     = <sorted ac vectors>   ~ <sorted T/F/u patterns>      (mode c16)
+  graphcheck <key> <hex code> <adf> <ac> <graph>   = <fnv64 of the canonical graph>   ~ ok  (mode c16)
+  dbcheck users=<name:class,...> problems=<canonical JSON>   ~ ok
+  isolation <items>                 ~ ok       items: c/<cmd>/<user name in filter|->/<identities in flight>
+                                               and r/<identity>/<problems returned>/<problems found with that identity>
+  logins <events>                   ~ ok       R:u:pw U:old:u:pw D:u L:u:pw:status (pw = fnv64 prefix)
+  alone <jar>                       ~ <fnv64 of each response to the jar>   (only for jars with a private name space)
+  alone! <jar> / stored <key>       ~ ...      (scheduled D9 histories: the specification differs, on purpose)
+  # case web-<k> key=val ...                   statistics;   # known D9 reproduced=<0|1> held=<0|1> variant=<...>
+  # req ...                                    (mode conc: the requests in start order, for the record only)
 
-`=` lines are compared with the algorithmic Lean model (ServerModel), `~` lines with the
-specification / monitors evaluated by the Lean driver (Drv/Http.lean).
+`=` lines are compared with the algorithmic Lean model (ServerModel.lean through Drv/Http.lean), `~` lines with
+the specification / monitors evaluated by the Lean driver from the data in the request line.
 """
 import argparse
 import fcntl
@@ -293,11 +304,11 @@ class Gen:
         return pairs[-1][0]
 
     # -- C17 ------------------------------------------------------------------------------
-    def history(self, conc=False):
+    def history(self, conc=False, scale=1):
         r = self.r
         njars = r.choice([2, 3, 3])
         private = r.random() < 0.4          # every jar gets its own name space (hypothesis of noninterference)
-        n = r.randint(5, 40)
+        n = r.randint(5, 40) * scale
         guess = [{"cred": None, "in": False, "probs": []} for _ in range(njars)]
         out = []
         for _ in range(n):
@@ -1158,7 +1169,7 @@ def do_run(args, out):
                 extra += "".join(" kind=%s parsing=%s" % s for s in stats)
                 out.write(stat_line(k, run, extra) + "\n")
             elif args.mode == "conc":
-                njars, hist = g.history(conc=True)
+                njars, hist = g.history(conc=True, scale=max(1, args.scale))
                 run_conc_case(rig, out, k, seed, hist, njars)
             elif args.mode == "d9":
                 (run_d9a, run_d9b, run_d9c)[k % 3](rig, out, k, seed)
@@ -1210,6 +1221,7 @@ def main():
     ap.add_argument("--cases", type=int, default=10)
     ap.add_argument("--mode", default="seq")
     ap.add_argument("--out", default=None)
+    ap.add_argument("--scale", type=int, default=1, help="mode conc: multiply the history length (soak)")
     ap.add_argument("--lock", default=os.path.join(os.path.dirname(os.path.dirname(HERE)), "build", ".port8080.lock"))
     args = ap.parse_args()
     args.server_bin = os.path.abspath(args.server_bin)
